@@ -21,7 +21,7 @@ from ..workload import build_estimator, gen_dataset
 
 PROPERTY = "C06"
 LEVEL = "exploration"
-TIERS = {"quick": {"runs": 4000, "wall": 300}, "thorough": {"runs": 6000, "wall": 1800}}
+TIERS = {"quick": {"runs": 4000, "wall": 300}, "thorough": {"runs": 6000, "wall": 1800, "chunk": 8}}
 RTOL = 1e-9
 
 RULE = (
